@@ -13,6 +13,8 @@ import lib
 
 FULL = {"users": "u1,u2", "roles": "r1", "dbs": "d1,d2", "tbls": "t1,t2"}
 SMALL = {"users": "u1,u2", "roles": "r1", "dbs": "d1", "tbls": "t1,t2"}
+BIG = {"users": "u1,u2,u3", "roles": "r1,r2", "dbs": "d1,d2", "tbls": "t1,t2"}
+EXACT = {"users": "u1,u1@%", "roles": "r1", "dbs": "d1", "tbls": "t1"}
 TRACE_CFG = "Trace_Privileges.cfg"     # its vocabulary contains FULL and SMALL
 
 
@@ -136,11 +138,32 @@ def _only(a, b):
     return ",".join(sorted(kinds))
 
 
+def _sibling(name):
+    return name[:name.index("@")] if "@" in name else name + "@%"
+
+
+def _differing(spec, eng):
+    """Accounts whose existence, grants, flags or role edges differ between the two projections."""
+    def acc(side):
+        return {a["a"]: (a["locked"], a["pw"], frozenset((g["db"], g["tbl"], g["p"]) for g in a["g"])) for a in side["accts"]}
+    s, e = acc(spec), acc(eng)
+    d = {a for a in set(s) | set(e) if s.get(a) != e.get(a)}
+    se = {(x["r"], x["to"], x["adm"]) for x in spec["edges"]}
+    ee = {(x["r"], x["to"], x["adm"]) for x in eng["edges"]}
+    return d | {x[1] for x in se ^ ee}
+
+
 def signature(pid, m):
     """Short classification of one MM record; the regexes of known_findings.jsonl match these."""
     k = m["kind"]
+    ex = "exact/" if m.get("src") == "exact" else ""      # histories of the account-name vocabulary
     if k == "ret":
-        return "%s|ret|%s|engine=%s(%s)|spec=%s" % (pid, m["act"], m["engine"], m.get("msg", ""), m["spec"])
+        return "%s|%sret|%s|engine=%s(%s)|spec=%s" % (pid, ex, m["act"], m["engine"], m.get("msg", ""), m["spec"])
+    if k == "state" and ex:
+        a = m.get("actrec", {})
+        diff = _differing(m["spec"], m["engine"])
+        on = "sibling" if diff and diff <= {_sibling(a.get("a", ""))} else "named" if diff <= {a.get("a", "")} else "other"
+        return "%s|exact/state|%s|%s|on=%s" % (pid, m["act"], ",".join(sorted(m["what"])), on)
     if k == "state":
         a = m.get("actrec", {})
         lvl = ""
@@ -185,7 +208,7 @@ def judge(pid, v, batch, mms, relevant, per_sig=1):
                 break
             tried.append(m["h"])
             tag, one, rmode, vocab, kw = batch.hist[m["h"]]
-            cb.add("h%d" % m["h"], one, vocab, rmode=rmode, **kw)
+            cb.add(tag, one, vocab, rmode=rmode, **kw)      # same tag: signatures depend on the vocabulary
             want.append((sig, m, len(cb.hist)))
     mm2, _, _ = cb.validate()
     for sig, m, h2 in want:
@@ -203,3 +226,50 @@ def judge(pid, v, batch, mms, relevant, per_sig=1):
         else:
             raise lib.Inconclusive("mismatch did not reproduce in isolation: %s (history %d, %s)" % (sig, m["h"], m.get("src")))
     return {s: len(ms) for s, ms in by_sig.items()}
+
+
+def forged_selftest(batch, mms, kind_of_reload=False):
+    """Binding demonstrated, not assumed: copies of one cleanly validated history with (a) one
+    recorded field corrupted and (b) one event dropped must be rejected by Trace_Privileges."""
+    import copy
+    dirty = {m["h"] for m in mms}
+    evs_by_h = {}
+    for e in batch.events:
+        evs_by_h.setdefault(e["h"], []).append(e)
+    pick = None
+    for h, evs in evs_by_h.items():
+        if h in dirty:
+            continue
+        steps = [i for i, e in enumerate(evs) if e["ev"] == "step" and e["act"]["name"] in ("GrantPriv", "GrantRole") and e["ret"] == "ok"]
+        if kind_of_reload:
+            ok = steps and any(e["ev"] == "reload" and any(len(x["g"]) > 1 for x in e["ga"]) for e in evs)
+        else:
+            ok = steps and any(e["ev"] == "matrix" for e in evs)
+        if ok:
+            pick = (h, evs, steps)
+            break
+    if pick is None:
+        raise lib.Inconclusive("no clean history to forge")
+    h, evs, steps = pick
+    a = copy.deepcopy(evs)
+    if kind_of_reload:
+        r = next(e for e in a if e["ev"] == "reload" and any(len(x["g"]) > 1 for x in e["ga"]))
+        x = next(x for x in r["ga"] if len(x["g"]) > 1)
+        x["g"] = x["g"][:-1]                                   # one SHOW GRANTS line lost "after reload"
+    else:
+        m = next(e for e in a if e["ev"] == "matrix")
+        m["rows"][0]["out"] = "deny" if m["rows"][0]["out"] == "allow" else "allow"   # one probe outcome flipped
+    b = copy.deepcopy(evs)
+    del b[steps[0]]                                            # one state-changing step dropped
+    for e in a:
+        e["h"] = 1
+    for e in b:
+        e["h"] = 2
+    path = os.path.join(batch.sc, batch.name + ".forged.ndjson")
+    lib.write_ndjson(path, a + b)
+    r = lib.tlc("Trace_Privileges", TRACE_CFG, workers=1, timeout=900, heap="4g", extra_files=[("priv_trace.ndjson", path)])
+    lib.tlc_ok(r, "Trace_Privileges[forged]")
+    hs = {m["h"] for m in r.jsons("MM")}
+    if hs != {1, 2}:
+        raise lib.Inconclusive("the trace specification accepted a forged trace (rejected: %s of corrupted-field, dropped-event)" % sorted(hs))
+    return {"corrupted_field_rejected": True, "dropped_event_rejected": True, "history": h}
